@@ -22,6 +22,18 @@
 //
 // A tag of the form <name>*<n> stands for a payload of <name> followed by n dots (long frames); it is reported in the same form.
 //
+//	auto:<caller>:<con|non>              a request built by the connection's own constructor (cc.NewGetRequest): the LIBRARY chooses the
+//	                                     token (the connection's configured generator, message.GetToken by default); reported as
+//	                                     the event auto:<caller>:<tokhex> in front of the op's segment
+//	draw:<n>                             n tokens are drawn from the connection's generator (cc.GetToken) and not used: requests built
+//	                                     and never sent, other connections of the process
+//	many:<caller0>:<n>:<con|non>:<mid0>  n complete exchanges one after the other, callers caller0…, each `auto` followed by the peer's
+//	                                     answer m<caller> (piggybacked for con, non-confirmable with message ID mid0+i for non, a
+//	                                     response frame on tcp): 2n segments
+//
+// In the token field of a `peer` op `$<caller>` stands for the token the library chose for that caller: the peer echoes the token
+// of the request it answers.
+//
 //	cancel:<caller>                      cancels the caller's request context
 //	close                                closes the connection
 //	settle                               nothing (observation point)
@@ -79,6 +91,8 @@ type doer interface {
 	ReleaseMessage(m *pool.Message)
 	Do(req *pool.Message) (*pool.Message, error)
 	Close() error
+	NewGetRequest(ctx context.Context, path string, opts ...message.Option) (*pool.Message, error)
+	GetToken() (message.Token, error)
 }
 
 type caller struct {
@@ -184,6 +198,56 @@ func (w *world) startDo(cc doer, id int, tok message.Token, typ string) {
 		c.res = fmt.Sprintf("ret:%d:ok:%s:%s", id, lp.Hex(resp.Token()), tagOf(body))
 		cc.ReleaseMessage(resp)
 	}()
+}
+
+// startAuto: the request comes from the connection's constructor, which asks the configured token generator; the token is
+// returned (hex) so that the scripted peer can echo it.
+func (w *world) startAuto(cc doer, id int, typ string) string {
+	ctx, cancel := context.WithCancel(context.Background())
+	c := &caller{id: id, cancel: cancel, done: make(chan struct{})}
+	w.mu.Lock()
+	w.callers[id] = c
+	w.order = append(w.order, id)
+	w.mu.Unlock()
+	req, err := cc.NewGetRequest(ctx, "/r")
+	if err != nil {
+		c.res = fmt.Sprintf("ret:%d:other", id)
+		close(c.done)
+		return ""
+	}
+	switch typ {
+	case "con":
+		req.SetType(message.Confirmable)
+	case "non":
+		req.SetType(message.NonConfirmable)
+	}
+	tok := lp.Hex(req.Token())
+	go func() {
+		defer close(c.done)
+		defer func() {
+			if r := recover(); r != nil {
+				c.res = fmt.Sprintf("ret:%d:panic", id)
+			}
+		}()
+		defer cc.ReleaseMessage(req)
+		resp, err := cc.Do(req)
+		if err != nil {
+			c.res = fmt.Sprintf("ret:%d:%s", id, errName(err))
+			return
+		}
+		body, _ := resp.ReadBody()
+		c.res = fmt.Sprintf("ret:%d:ok:%s:%s", id, lp.Hex(resp.Token()), tagOf(body))
+		cc.ReleaseMessage(resp)
+	}()
+	return tok
+}
+
+func drawTokens(cc doer, n int) {
+	for i := 0; i < n; i++ {
+		if _, err := cc.GetToken(); err != nil {
+			panic(err)
+		}
+	}
 }
 
 // startObs: cc.DoObserve with a caller-chosen token; the call returns with the first notification
@@ -408,6 +472,13 @@ func runUDP(t *testing.T, bw bool, ops []string) (out string) {
 		callerTok := map[int]string{}
 		callerMid := map[int]int32{}
 		lastDo := -1
+		parseTok := func(s string) message.Token {
+			if strings.HasPrefix(s, "$") {
+				id, _ := strconv.Atoi(s[1:])
+				return parseTok(callerTok[id])
+			}
+			return parseTok(s)
+		}
 		resolveMid := func(sm string) int32 {
 			if strings.HasPrefix(sm, "@") {
 				id, _ := strconv.Atoi(sm[1:])
@@ -420,10 +491,25 @@ func runUDP(t *testing.T, bw bool, ops []string) (out string) {
 			return int32(v)
 		}
 		segs := []string{"inj=" + map[bool]string{true: "1", false: "0"}[injective(ops)]}
-		for _, op := range ops {
+		var runOp func(op string)
+		runOp = func(op string) {
 			nowait := strings.HasPrefix(op, "+")
 			op = strings.TrimPrefix(op, "+")
 			f := strings.Split(op, ":")
+			if f[0] == "many" && len(f) == 5 {
+				c0, _ := strconv.Atoi(f[1])
+				n, _ := strconv.Atoi(f[2])
+				m0, _ := strconv.Atoi(f[4])
+				for i := 0; i < n; i++ {
+					runOp(fmt.Sprintf("auto:%d:%s", c0+i, f[3]))
+					if f[3] == "con" {
+						runOp(fmt.Sprintf("peer:pig:$%d:@%d:m%d", c0+i, c0+i, c0+i))
+					} else {
+						runOp(fmt.Sprintf("peer:non:$%d:%d:m%d", c0+i, (m0+i)&0xffff, c0+i))
+					}
+				}
+				return
+			}
 			func() {
 				defer func() {
 					if r := recover(); r != nil {
@@ -439,6 +525,15 @@ func runUDP(t *testing.T, bw bool, ops []string) (out string) {
 					callerTok[id] = lp.Hex(tok)
 					lastDo = id
 					w.startDo(cc, id, tok, f[3])
+				case f[0] == "auto" && len(f) == 3:
+					id, _ := strconv.Atoi(f[1])
+					tok := w.startAuto(cc, id, f[2])
+					callerTok[id] = tok
+					lastDo = id
+					w.carryTx = append(w.carryTx, fmt.Sprintf("auto:%d:%s", id, tok))
+				case f[0] == "draw" && len(f) == 2:
+					n, _ := strconv.Atoi(f[1])
+					drawTokens(cc, n)
 				case f[0] == "peer" && len(f) == 5:
 					tok := parseTok(f[2])
 					mid := resolveMid(f[3])
@@ -546,20 +641,23 @@ func runUDP(t *testing.T, bw bool, ops []string) (out string) {
 			}()
 			if nowait {
 				segs = append(segs, "+")
-				continue
+				return
 			}
 			synctest.Wait()
 			tx := append(w.carryTx, takeTx()...)
 			w.carryTx = nil
 			if lastDo >= 0 {
 				// the request datagram written since the last observation point that carries this caller's token
-				if mid, ok := w.mids[callerTok[lastDo]]; ok && (f[0] == "do" || f[0] == "obs") {
+				if mid, ok := w.mids[callerTok[lastDo]]; ok && (f[0] == "do" || f[0] == "obs" || f[0] == "auto") {
 					callerMid[lastDo] = mid
 				}
 			}
 			w.mids = map[string]int32{}
 			lastDo = -1
 			segs = append(segs, w.collect(tx))
+		}
+		for _, op := range ops {
+			runOp(op)
 		}
 		openGate()
 		_ = cc.Close()
@@ -638,10 +736,28 @@ func runTCP(t *testing.T, bw bool, ops []string) (out string) {
 			return tx
 		}
 		segs := []string{"inj=" + map[bool]string{true: "1", false: "0"}[injective(ops)]}
-		for _, op := range ops {
+		callerTok := map[int]string{}
+		parseTok := func(s string) message.Token {
+			if strings.HasPrefix(s, "$") {
+				id, _ := strconv.Atoi(s[1:])
+				return parseTok(callerTok[id])
+			}
+			return parseTok(s)
+		}
+		var runOp func(op string)
+		runOp = func(op string) {
 			nowait := strings.HasPrefix(op, "+")
 			op = strings.TrimPrefix(op, "+")
 			f := strings.Split(op, ":")
+			if f[0] == "many" && len(f) == 5 {
+				c0, _ := strconv.Atoi(f[1])
+				n, _ := strconv.Atoi(f[2])
+				for i := 0; i < n; i++ {
+					runOp(fmt.Sprintf("auto:%d:con", c0+i))
+					runOp(fmt.Sprintf("peer:resp:$%d:0:m%d", c0+i, c0+i))
+				}
+				return
+			}
 			func() {
 				defer func() {
 					if r := recover(); r != nil {
@@ -654,6 +770,14 @@ func runTCP(t *testing.T, bw bool, ops []string) (out string) {
 				case f[0] == "do" && len(f) == 4:
 					id, _ := strconv.Atoi(f[1])
 					w.startDo(cc, id, parseTok(f[2]), "")
+				case f[0] == "auto" && len(f) == 3:
+					id, _ := strconv.Atoi(f[1])
+					tok := w.startAuto(cc, id, "")
+					callerTok[id] = tok
+					w.carryTx = append(w.carryTx, fmt.Sprintf("auto:%d:%s", id, tok))
+				case f[0] == "draw" && len(f) == 2:
+					n, _ := strconv.Atoi(f[1])
+					drawTokens(cc, n)
 				case f[0] == "peer" && len(f) == 5 && f[1] == "resp":
 					if err := peer.Write(tcpMsg(codes.Content, parseTok(f[2]), expandTag(f[4]))); err != nil {
 						panic(err)
@@ -706,10 +830,15 @@ func runTCP(t *testing.T, bw bool, ops []string) (out string) {
 			}()
 			if nowait {
 				segs = append(segs, "+")
-				continue
+				return
 			}
 			synctest.Wait()
-			segs = append(segs, w.collect(takeTx()))
+			tx := append(w.carryTx, takeTx()...)
+			w.carryTx = nil
+			segs = append(segs, w.collect(tx))
+		}
+		for _, op := range ops {
+			runOp(op)
 		}
 		_ = cc.Close()
 		for _, c := range w.callers {
